@@ -618,7 +618,12 @@ func (x *Exec) typeAssert(fr *Frame, st *State, in *ssa.TypeAssert) *Value {
 	var res *Value
 	if _, toIface := under(in.AssertedType).(*types.Interface); toIface {
 		// interface-to-interface: succeeds iff non-nil and dynamic type implements it
-		ok = And(Neq(v.Tag, IntLit(0)), x.implements(v.Tag, in.AssertedType))
+		if types.Implements(in.X.Type(), under(in.AssertedType).(*types.Interface)) || types.Identical(in.X.Type(), in.AssertedType) {
+			// the static type already guarantees the methods: the assertion only checks for nil
+			ok = Neq(v.Tag, IntLit(0))
+		} else {
+			ok = And(Neq(v.Tag, IntLit(0)), x.implements(v.Tag, in.AssertedType))
+		}
 		nv := *v
 		nv.T = in.AssertedType
 		res = &nv
